@@ -1653,13 +1653,7 @@ class _Serializer:
         try:
             dispatch = self._dispatch[tp]
         except KeyError:
-            methodname = "save_" + tp.__name__
-            meth: Callable[[_Serializer, object], None] | None = getattr(
-                self.__class__, methodname, None
-            )
-            if meth is None:
-                raise DumpError(f"can't serialize {tp}") from None
-            dispatch = self._dispatch[tp] = meth
+            raise DumpError(f"can't serialize {tp}") from None
         dispatch(self, obj)
 
     def save_NoneType(self, non: None) -> None:
@@ -1756,6 +1750,25 @@ class _Serializer:
     def save_Channel(self, channel: Channel) -> None:
         self._write(opcode.CHANNEL)
         self._write_int4(channel.id)
+
+
+# dispatch on the exact type object (not on its name): a user class that
+# merely shares the name of a supported type must not be serialized as one
+_Serializer._dispatch = {
+    type(None): _Serializer.save_NoneType,  # type: ignore[dict-item]
+    bool: _Serializer.save_bool,  # type: ignore[dict-item]
+    bytes: _Serializer.save_bytes,  # type: ignore[dict-item]
+    str: _Serializer.save_str,  # type: ignore[dict-item]
+    int: _Serializer.save_int,  # type: ignore[dict-item]
+    float: _Serializer.save_float,  # type: ignore[dict-item]
+    complex: _Serializer.save_complex,  # type: ignore[dict-item]
+    list: _Serializer.save_list,  # type: ignore[dict-item]
+    dict: _Serializer.save_dict,  # type: ignore[dict-item]
+    tuple: _Serializer.save_tuple,  # type: ignore[dict-item]
+    set: _Serializer.save_set,  # type: ignore[dict-item]
+    frozenset: _Serializer.save_frozenset,  # type: ignore[dict-item]
+    Channel: _Serializer.save_Channel,  # type: ignore[dict-item]
+}
 
 
 def init_popen_io(execmodel: ExecModel) -> Popen2IO:
